@@ -279,7 +279,7 @@ DropStream(s, how) ==
   IN Ob(s1, SStreamGone(s1.o, how))
 
 (* ------------------------------------------------------------------ handler tasks *)
-H_Exit(s, hh) == [s EXCEPT !.h[hh].st = "exited", !.h[hh].armed = FALSE, !.woken = @ \ {hh}]
+H_Exit(s, hh) == Ob([s EXCEPT !.h[hh].st = "exited", !.h[hh].armed = FALSE, !.woken = @ \ {hh}], SHandlerExit(s.o, hh))
 H_DropInner(s, hh) ==
   IF s.h[hh].st \in {"running"} THEN Ob(s, SHandlerDropped(s.o, hh)) ELSE s
 
@@ -438,8 +438,8 @@ OAt == IF Settled
 
 (* property invariants in "except known findings" form: every recorded violation carries a signature *)
 OnlyKnown(p) == \A b \in BadOf(S.o, p) : b[3] # ""
-M_C04 == OnlyKnown("C04")
-M_C06 == OnlyKnown("C06")
+M_C04 == OnlyKnown("C04") /\ StoppedAtPoint(OAt, "cancel")
+M_C06 == OnlyKnown("C06") /\ StoppedAtPoint(OAt, "expired")
 M_C08 == OnlyKnown("C08")
 M_C12 == OnlyKnown("C12")
 M_C11 == OnlyKnown("C11") /\ ((AtPt(OAt) /\ OAt.pt.alive /\ OAt.pt.writable /\ OAt.faults = <<>> /\ OAt.tracked = {}) =>
